@@ -588,7 +588,7 @@ class BLOBType(DataType):
         super().checkProperties()
 
     def export_datatype(self):
-        return self.get_info(type='blob')
+        return self.get_info(type='blob', maxbytes=self.maxbytes)
 
     def __repr__(self):
         return f'BLOBType({self.minbytes}, {self.maxbytes})'
